@@ -15,16 +15,20 @@ from harness.lib import hx, zl, cz, cbool, clist
 
 ID = 'C02'
 RULE = ('files generated from a per-format grammar (BED3/6/12, bedGraph, narrowPeak, chrom.sizes, GTF, GFF3 and wig with '
-        'interior comments, pairs, SAM with optional tags, GFA S-lines, VCF with/without INFO declarations and genotype '
-        'columns, FASTQ, two-line and wrapped FASTA), 1..N records, field widths 0..W, LF/CRLF; non-trivial = at least two '
-        'records and some column whose texts have unequal widths (or, for wrapped FASTA, a sequence spanning several lines)')
+        'interior comments, pairs, SAM with optional tags, GFA S-lines, VCF with/without INFO declarations (key families, all value '
+        'spellings of ints and floats: explicit +, .5, 5., exponents) and genotype columns of mixed cell shapes, FASTQ, two-line and '
+        'wrapped FASTA), 1..N records, field widths 0..W, LF/CRLF; every file is observed in a SESSION: lazy read, eager read, the '
+        'same table looked at again, after replace() of a column by itself, and get_data() twice on one buffer — all must give the '
+        'same columns; non-trivial = at least two records and some column whose texts have unequal widths (or, for wrapped FASTA, '
+        'a sequence spanning several lines)')
 EXHAUSTIVE = {'quick': False, 'thorough': False}
 TIE = ('translator+correspondence: translate/gen_c02.py regenerates 30 index/offset formulas (column count, buffer size, '
        'sentinel, field start/end, record ends before the CR adjustment, CR probe and adjustment, digit-matrix window and fill, '
        'keep_sep, VCF position shift, SAM rest-of-line, INFO key-length arithmetic and guard) into Gen/C02.v; Bridge/C02.v proves '
        'them equal to the named helpers of Model/C02.v (theorem C02_source_tie); and Model.C02.run is evaluated in Coq on the file '
        'bytes and compared with every parsed column')
-ASSUMPTIONS = ['A-IO: the reader delivers the whole file (after the leading comment block) as one chunk; chunking is C01',
+ASSUMPTIONS = ['sessions: the Coq model is a function of the file bytes; that repeated parses of one table / buffer agree with the first one is checked by the harness (observe/_session) and enters spec_ok through the observation flag, it is not a Coq theorem',
+               'A-IO: the reader delivers the whole file (after the leading comment block) as one chunk; chunking is C01',
                'floats: the model computes the exact decimal value; observed doubles are compared within relative 2^-50 (bit-exactness is C18)',
                'vcf_header.py regular-expression parsing is not modelled: the INFO declarations (key, type, scalar/list) are case inputs',
                'SequenceID columns are compared as text (NUL padding of the fixed-width string array is not modelled)',
@@ -152,17 +156,29 @@ class G:
         return u
 
     def flt(self, signed=True, sci=True):
+        """every spelling of the decimal grammar [+-]?(d+[.d*]?|.d+)(e[+-]?d+)? — integer, fraction, no leading digit
+        (.5), trailing point (5.), explicit plus sign, exponent forms"""
         r = self.r
         x = r.random()
         a = self.uint(6)
-        s = '-' if (signed and r.random() < 0.25) else ''
-        if x < 0.3:
-            return s + a
+        s = ''
+        if signed:
+            y = r.random()
+            s = '-' if y < 0.25 else ('+' if y < 0.33 else '')
         b = ''.join(r.choice('0123456789') for _ in range(r.randint(1, 5)))
-        if x < 0.8 or not sci:
-            return s + a + '.' + b
-        e = r.choice(['e3', 'e-3', 'e0', 'e-10', 'e12', 'e+2'])
-        return s + a + '.' + b + e
+        if x < 0.25:
+            m = a
+        elif x < 0.6:
+            m = a + '.' + b
+        elif x < 0.75:
+            m = '.' + b                   # no digit before the point
+        elif x < 0.85:
+            m = a + '.'                   # no digit after the point
+        else:
+            m = r.choice(['0', '0.0', '.0', '0.', '1', '.5'])
+        if sci and r.random() < 0.25:
+            m += r.choice(['e3', 'e-3', 'e0', 'e-10', 'e12', 'e+2', 'e+0', 'e-0'])
+        return s + m
 
     def strand(self):
         return self.r.choice('+-.')
@@ -173,8 +189,8 @@ class G:
     def qual(self, n):
         return ''.join(chr(self.r.randint(33, 126)) for _ in range(n))
 
-    def intlist(self, n, trailing):
-        return ','.join(self.uint(4) for _ in range(n)) + (',' if trailing else '')
+    def intlist(self, n, trailing, p_plus=0.0):
+        return ','.join(('+' if self.r.random() < p_plus else '') + self.uint(4) for _ in range(n)) + (',' if trailing else '')
 
 
 def _rec(g, fmt, opts):
@@ -182,11 +198,11 @@ def _rec(g, fmt, opts):
     if fmt == 'bed3':
         return [g.ident(), g.sint(opts['p_neg'], opts['p_plus']), g.uint()]
     if fmt in ('bed6', 'bed12', 'npk'):
-        score = '.' if r.random() < opts['p_dot'] else g.uint(4)
+        score = '.' if r.random() < opts['p_dot'] else (('+' if r.random() < opts['p_plus'] else '') + g.uint(4))
         base = [g.ident(), g.uint(), g.uint(), g.ident(), score, g.strand()]
         if fmt == 'bed12':
             n = r.randint(1, 3)
-            base += [g.uint(), g.uint(), g.text(1, '0123456789,'), str(n), g.intlist(n, opts['trailing']), g.intlist(n, opts['trailing'])]
+            base += [g.uint(), g.uint(), g.text(1, '0123456789,'), str(n), g.intlist(n, opts['trailing'], opts['p_plus']), g.intlist(n, opts['trailing'], opts['p_plus'])]
         if fmt == 'npk':
             base += [g.flt(False), g.flt(), g.flt(), ('-1' if r.random() < opts['p_neg'] else g.uint())]
         return base
@@ -259,7 +275,8 @@ def _info_text(g, opts):
         if typ == 'Flag':
             items.append(key)
         elif typ == 'Integer':
-            v = ','.join(g.uint(4) for _ in range(r.randint(1, 3))) if lst else ('.' if r.random() < opts['p_dot'] else g.uint(5))
+            pl = lambda: ('+' if r.random() < opts.get('p_plus', 0) else ('-' if r.random() < opts.get('p_neg', 0) else ''))
+            v = ','.join(pl() + g.uint(4) for _ in range(r.randint(1, 3))) if lst else ('.' if r.random() < opts['p_dot'] else pl() + g.uint(5))
             items.append(key + '=' + v)
         elif typ == 'Float':
             v = ','.join(g.flt(True, False) for _ in range(r.randint(1, 3))) if lst else ('.' if r.random() < opts['p_dot'] else g.flt(True, True))
@@ -525,6 +542,32 @@ def _buffer_type(fmt):
     return getattr(importlib.import_module(m), c)
 
 
+def _session(bnp, path, bt, table, first):
+    import dataclasses
+    try:
+        if _columns(table) != first:
+            return 'the table returned by read() differs when looked at again'
+        name = dataclasses.fields(table)[0].name
+        replaced = bnp.replace(table, **{name: getattr(table, name)})
+        if _columns(replaced) != first:
+            return 'columns differ after replace(%s=<same values>)' % name
+        if _columns(table) != first:
+            return 'the table returned by read() changed after replace()'
+        f = bnp.open(path, buffer_type=bt)
+        buf = f._reader.read()               # the buffer of the whole file (NumpyFileReader.read)
+        f.close()
+        t1 = buf.get_data()
+        c1 = _columns(t1)
+        t2 = buf.get_data()
+        if _columns(t2) != first:
+            return 'second get_data() on the same buffer differs'
+        if _columns(t1) != c1 or c1 != first:
+            return 'the table of the first get_data() differs / changed after the second one'
+        return 'same'
+    except Exception as e:
+        return 'error:%s:%s' % (type(e).__name__, str(e)[:80])
+
+
 def observe(case):
     import bionumpy as bnp
     d = tempfile.mkdtemp(prefix='c02_')
@@ -550,6 +593,10 @@ def observe(case):
             out['eager'] = 'same' if (cols2 == out['cols'] and len(data2) == out['n']) else 'different'
         except Exception as e:
             out['eager'] = 'error:' + type(e).__name__
+        # sessions: parsing is a function of the bytes — asking the same table / buffer again, or after replace(),
+        # gives the same columns and changes nothing that was handed out before
+        if not any(c[1] == 'err' for c in out['cols']):
+            out['session'] = _session(bnp, path, bt, data, out['cols'])
         return out
     finally:
         shutil.rmtree(d, ignore_errors=True)
@@ -578,6 +625,8 @@ def _eager_ok(o):
     """The eager route must deliver the same columns; it fails as a whole exactly when some lazily parsed column fails."""
     any_err = any(c[1] == 'err' for c in o['cols'])
     e = o.get('eager', 'same')
+    if o.get('session', 'same') != 'same':
+        return False
     if e == 'same':
         return True
     if e.startswith('error:'):
